@@ -18,7 +18,7 @@ from vlib import sqlo
 
 PROP = 'C01'
 META = {
-    'extractors': ['codec', 'pycodec'],
+    'extractors': ['codec', 'pycodec', 'pymainv'],
     'technique': ('Lean 4 proofs over an executable model of validator pairs + sqlite literal rendering + SQLite literal '
                   'evaluation/affinity + driver fetch; format strings, literals, column types extracted from /repo; '
                   'differential correspondence and an independent read-back oracle on in-memory SQLite; '
